@@ -499,6 +499,9 @@ func isAllOnes(v BV) bool {
 
 // shift by a non-constant count: only the closed forms the range helpers use.
 func (c *bvCtx) shiftSym(op token.Token, a, k BV) BV {
+	if a.Why != "" && a.Mask == nil && a.Pow == nil && !a.allKnown() {
+		return topBV(a.W, a.Signed, a.Why) // keep the first reason information was lost
+	}
 	kl := c.linOf(k)
 	if kl == nil {
 		why := "shift count is not a known linear value"
